@@ -3,7 +3,15 @@
 # or /tmp/benign/<ID>/<letter>/patch.diff) to /repo, run the checks (each must stay quiet), undo.
 ID="$1"; X="$2"; shift 2
 P="/verif/benign/$ID-$X/patch.diff"; [ -f "$P" ] || P="/tmp/benign/$ID/$X/patch.diff"
-git -C /repo apply "$P" 2>/dev/null || { echo "patch does not apply"; exit 2; }
+if ! git -C /repo apply "$P" 2>/dev/null; then
+  # /repo has moved on (later fix: commits): try a three-way merge of the rewrite, give up on conflicts
+  if ! git -C /repo apply -3 "$P" >/dev/null 2>&1 || git -C /repo diff --name-only --diff-filter=U | grep -q .; then
+    git -C /repo checkout -q HEAD -- . 2>/dev/null; git -C /repo reset -q 2>/dev/null; git -C /repo checkout -- .
+    echo "patch does not apply to the current HEAD (conflict with a later fix): skipped"; exit 2
+  fi
+  git -C /repo reset -q
+  echo "(applied by three-way merge)"
+fi
 for c in "$@"; do timeout 2400 /verif/check "$c" 2>&1 | grep -E "VIOLATION|INTERNAL|-> (ok|FAIL)" | cut -c1-400; done
 git -C /repo checkout -- .
 git -C /repo status --short | grep -v '^??' && echo "REPO NOT CLEAN"
